@@ -523,8 +523,8 @@ func ChoiceHeavy(r *rand.Rand) *Grammar {
 		ch := func() rune { return alpha[r.Intn(len(alpha))] }
 		wide := len(alpha) > 20
 		term := func() *Expr {
-			if wide && r.Intn(14) == 0 {
-				return BridgingClass(r, 'a')
+			if wide && r.Intn(9) == 0 {
+				return BridgingClass(r, []rune{'a', 'e', 'k'}[r.Intn(3)])
 			}
 			if wide && r.Intn(8) == 0 {
 				// a wide class: it takes the role of the switch's default case, so that narrower multi-key
@@ -1010,6 +1010,8 @@ func BridgingClass(r *rand.Rand, base rune) *Expr {
 		c0 := b1 + 2 + rune(r.Intn(3))
 		items = append(items, Item{c0, c0 + 1 + rune(r.Intn(3))})
 	}
-	r.Shuffle(len(items), func(i, j int) { items[i], items[j] = items[j], items[i] })
+	if r.Intn(2) == 0 { // otherwise the bridging range stays behind the two intervals it bridges
+		r.Shuffle(len(items), func(i, j int) { items[i], items[j] = items[j], items[i] })
+	}
 	return &Expr{K: KClass, Items: items}
 }
